@@ -188,6 +188,36 @@ def integration_and_binning(ctx, lentil, rng):
     return len(cases)
 
 
+def one_sample_leaf(ctx, lentil, rng):
+    """a spectrum cropped / trimmed down to ONE sample keeps that sample under resample, in whatever type its numbers are stored"""
+    import warnings
+    n = 0
+    for _ in range(40):
+        k = rng.randint(3, 8)
+        w0 = rng.choice((400, 500, 610))
+        vals = [rng.randint(1, 12) / 4 for _ in range(k)]
+        keep = rng.randrange(1, k - 1)
+        for wdt, vdt in ((float, float), (float, np.float32), (float, np.float16), (np.float32, float), (np.int32, float), (float, complex)):
+            s = lentil.radiometry.Spectrum(np.arange(w0, w0 + 10 * k, 10).astype(wdt), np.array(vals).astype(vdt), waveunit='nm', valueunit=None)
+            n += 1
+            ctx.case(('one-sample', k, w0, keep, np.dtype(wdt).name, np.dtype(vdt).name))
+            try:
+                with warnings.catch_warnings():
+                    warnings.simplefilter('ignore')
+                    s.crop(w0 + 10 * keep - 4, w0 + 10 * keep + 4)
+                    kept = (len(np.atleast_1d(s.wave)), complex(np.atleast_1d(s.value)[0]))
+                    s.resample(np.array([w0 + 10 * keep - 10.0, w0 + 10 * keep, w0 + 10 * keep + 10.0]), fill_value=0.0, waveunit='nm')
+                    got = np.atleast_1d(s.value)
+                ok = kept == (1, complex(vals[keep])) and len(got) == 3 and got[0] == 0 and got[2] == 0 and abs(complex(got[1]) - vals[keep]) <= 1e-6 * vals[keep]
+                err = None
+            except Exception as ex:
+                ok, err, got = False, repr(ex)[:160], None
+            if not ok:
+                ctx.violation({'kind': 'resample-alters-the-retained-sample', 'samples': 1, 'wave_dtype': np.dtype(wdt).name, 'value_dtype': np.dtype(vdt).name},
+                              {'value_kept_by_crop': vals[keep], 'after_resample': None if got is None else [str(x) for x in got], 'error': err}, case=None)
+    return n
+
+
 # ------------------------------------------------------------------------------------------ resizing programs
 def record_programs(lentil, rng, nprog, nsteps):
     events = []
@@ -321,6 +351,7 @@ def run(ctx):
     rng = random.Random(1515 + ctx.seed)
     q = ctx.tier == 'quick'
     ncases = integration_and_binning(ctx, lentil, rng)
+    ctx.extra['one_sample_resample_cases'] = one_sample_leaf(ctx, lentil, rng)
     events, offl = record_programs(lentil, rng, 400 if q else 4000, 4)
     bad = validate(ctx, events)
     byid = {e['id']: e for e in events}
